@@ -2,8 +2,10 @@ package rules
 
 import (
 	"fmt"
+	"go/ast"
 	"go/token"
 	"go/types"
+	"strings"
 
 	"golang.org/x/tools/go/ssa"
 
@@ -31,6 +33,7 @@ func runC14(p *core.Prog, r *core.Report) {
 	// the target's head request resolves the tag exactly (shared with C06.R6): a stale entry that is
 	// matched loosely makes every repeated copy rewrite the layout
 	c06R6(p, r, "C14.R7")
+	c14R8(p, r)
 }
 
 // c14R6: whether anything has to be written is decided by asking the target. The head request on the
@@ -627,4 +630,39 @@ func c14R5(p *core.Prog, r *core.Report) {
 	if n == 0 {
 		r.Held(rule, "scheme/reg", "no response length is compared with an expected size", "", "nothing to guard")
 	}
+}
+
+// c14R8: "is it there?" and "read it" look at the same file. The layout scheme opens and stats its
+// files with the link-following calls throughout; an existence test that refuses links (Lstat, an
+// open with O_NOFOLLOW) answers "absent" for content that every read of the same scheme returns,
+// and a copy onto a layout whose blobs are links (dvc, git-annex, bazel, nix stores) transfers and
+// rewrites everything on every run.
+func c14R8(p *core.Prog, r *core.Report) {
+	const rule = "C14.R8"
+	r.Rule(rule, "presence and content are decided by the same file: package scheme/ocidir uses no link-refusing file call (os.Lstat, an open flag O_NOFOLLOW, in any build-tagged file of the configuration): an existence test that does not follow links reports content absent that reads of the same scheme return, and the copy onto such a layout is repeated in full each time", 1)
+	pkg := p.Pkg(ocidirRel)
+	if pkg == nil {
+		r.MissingAnchor(rule, "package scheme/ocidir")
+		return
+	}
+	bad := ""
+	files := 0
+	for _, f := range pkg.Syntax {
+		files++
+		ast.Inspect(f, func(n ast.Node) bool {
+			switch x := n.(type) {
+			case *ast.SelectorExpr:
+				if x.Sel.Name == "O_NOFOLLOW" || x.Sel.Name == "AT_SYMLINK_NOFOLLOW" {
+					bad = x.Sel.Name + " at " + p.Pos(x.Pos())
+				}
+				if fn, ok := pkg.TypesInfo.Uses[x.Sel].(*types.Func); ok && fn.Pkg() != nil {
+					if (fn.Pkg().Path() == "os" || fn.Pkg().Path() == "syscall" || strings.HasSuffix(fn.Pkg().Path(), "x/sys/unix")) && (fn.Name() == "Lstat" || fn.Name() == "Fstatat") {
+						bad = fn.FullName() + " at " + p.Pos(x.Pos())
+					}
+				}
+			}
+			return true
+		})
+	}
+	r.Check(bad == "", rule, "scheme/ocidir", "link-following file calls only", "", fmt.Sprintf("%s: the test made with it does not see a blob that is a link, although the reads of the scheme do (%d files examined)", bad, files))
 }
